@@ -272,7 +272,7 @@ Import ListNotations.
 Open Scope string_scope.
 Definition gen_params : params := {|
   p_reserved_prefix := ["BITPIX";"SIMPLE";"TYPE";"ORDER";"NAXIS";"PERIOD";"EXTEND";"COMMENT"];
-  p_reserved_exact := ["";"END";"HISTORY";"CONTINUE";"PCOUNT";"GCOUNT"];
+  p_reserved_exact := ["";"END";"HISTORY";"CONTINUE";"PCOUNT";"GCOUNT";"EXTNAME";"HDUNAME"];
   p_short_keylen := 8; p_short_vmax := 68%%N; p_card := 80%%N; p_hier_overhead := 13%%N;
   p_long_keymax := Some 66; p_long_blank_check := true; p_quote_aware := true; p_unquote_read := true; p_printable_check := true;
   p_c_read_reports := true |}.
